@@ -11,13 +11,18 @@ verus! {
 #[verifier::external_body] pub struct BytesMut { x: u8 }     // bytes::BytesMut, opaque
 #[verifier::external_body] pub struct OptionalMultiHintState { x: u8 }   // Arc<AtomicUsize>, opaque
 impl OptionalMultiHintState {
-    // the producer side is another task: any value may come back
-    #[verifier::external_body] fn consume(&self) -> Option<OptionalMultiHint<()>> { unimplemented!() }
+    // what the next consume() hands out (the producer side is another task: any value)
+    pub uninterp spec fn next(&self) -> Option<OptionalMultiHint<()>>;
+    // real signature: consume(&self) on an Arc<atomic>; modelled with a mutable receiver (call text unchanged) so that two calls
+    // are NOT assumed to return the same hint
+    #[verifier::external_body] fn consume(&mut self) -> (r: Option<OptionalMultiHint<()>>) ensures r == old(self).next() { unimplemented!() }
 }
 #[verifier::external_body]
 fn clone_hint(h: &OptionalMultiHint<()>) -> (r: OptionalMultiHint<()>) ensures r == *h { unimplemented!() }
 #[verifier::external_body]
 fn shim_take_all<T>(v: &mut Vec<T>) -> (r: Vec<T>) ensures r@ == old(v)@, final(v)@.len() == 0 { unimplemented!() }
+// the request this call works on: the pending one, else the one it takes from the hint state
+spec fn hint_of<D: DecodedPacket<Hint = ()>>(d: OptionalMultiPacketDecoder<D>) -> Option<OptionalMultiHint<()>> { match d.curr_hint { Some(h) => Some(h), None => d.state.next() } }
 pub open spec fn is_prefix<T>(a: Seq<T>, b: Seq<T>) -> bool { a.len() <= b.len() && forall|i: int| 0 <= i < a.len() ==> a[i] == b[i] }
 '''
 
@@ -28,10 +33,12 @@ HEADER = '''    #[verifier::exec_allows_no_decreases_clause]
             r matches Ok(None) ==> is_prefix(old(self).buf@, final(self).buf@),
             r matches Ok(Some(OptionalMulti::Multi(v))) ==> (is_prefix(old(self).buf@, v@) || v@.len() == 0) && final(self).curr_hint is None,
             r matches Ok(Some(OptionalMulti::Single(p))) ==> final(self).buf@ == old(self).buf@ && final(self).curr_hint is None,
-            // a pending multi-packet request completes with exactly as many packets as were requested
-            old(self).curr_hint matches Some(OptionalMulti::Multi(hs)) ==> (hs@.len() > 0 ==> (r matches Ok(Some(OptionalMulti::Multi(v))) ==> v@.len() == hs@.len()) && !(r matches Ok(Some(OptionalMulti::Single(_))))),
-            // an unfinished request stays pending
-            r matches Ok(None) ==> (old(self).curr_hint matches Some(h0) ==> final(self).curr_hint == Some(h0)),'''
+            // a multi-packet request (pending, or taken from the hint state by this call) completes with exactly as many packets as were requested; a single request with one
+            hint_of(*old(self)) matches Some(OptionalMulti::Multi(hs)) ==> (hs@.len() > 0 ==> (r matches Ok(Some(OptionalMulti::Multi(v))) ==> v@.len() == hs@.len()) && !(r matches Ok(Some(OptionalMulti::Single(_))))),
+            hint_of(*old(self)) matches Some(OptionalMulti::Single(_)) ==> !(r matches Ok(Some(OptionalMulti::Multi(_)))),
+            // an unfinished request - also one taken from the hint state by this very call - stays pending; nothing requested: nothing happens
+            r matches Ok(None) ==> final(self).curr_hint == hint_of(*old(self)),
+            hint_of(*old(self)) is None ==> (r matches Ok(None)) && final(self).buf@ == old(self).buf@,'''
 
 def build(U):
     P = U.src('src/protocol/packet.rs')
@@ -54,8 +61,7 @@ def build(U):
     f.replace('D6', 'let v = self.buf.drain(..).collect();', 'let v = shim_take_all(&mut self.buf);', count=1)
     f.header(HEADER)
     f.loop_spec(0, '''            invariant is_prefix(old(self).buf@, self.buf@), hint is Single ==> self.buf@ == old(self).buf@,
-                old(self).curr_hint matches Some(h0) ==> hint == h0,
-                old(self).curr_hint is Some ==> self.curr_hint == old(self).curr_hint,''')
+                hint_of(*old(self)) == Some(hint), self.curr_hint == Some(hint),''')
     U.add('impl<D: DecodedPacket<Hint = ()>> OptionalMultiPacketDecoder<D> {\n')
     U.add_fn(f)
     U.add('}\n} // verus!\nfn main() {}\n')
